@@ -590,6 +590,16 @@ static INLINE int get_relative_dist(const OrderHintInfo *oh, int a, int b) {
     diff           = (diff & (m - 1)) - (diff & m);
     return diff;
 }
+#ifdef SVT_AV1_VERIF
+/* Verification hook H5 (guarded, add-only): accessor for the file-local order-hint distance helper */
+int svt_verif_get_relative_dist_mdc(int enable_order_hint, int order_hint_bits, int a, int b) {
+    OrderHintInfo oh;
+    memset(&oh, 0, sizeof(oh));
+    oh.enable_order_hint = (uint8_t)enable_order_hint;
+    oh.order_hint_bits   = (uint8_t)order_hint_bits;
+    return get_relative_dist(&oh, a, b);
+}
+#endif
 
 static int get_block_position(Av1Common *cm, int *mi_r, int *mi_c, int blk_row, int blk_col, MV mv,
                               int sign_bias) {
